@@ -143,8 +143,26 @@ def generate(ctx):
             inner = [q[0], atom] + q[1:]
             fam.append(["cat", ["lit", "a"], ["cat", inner, ["lit", "b"]]])
     rng.shuffle(fam)
+    # loops over bodies that match the empty word (epsilon cycles in the compiled automaton), read with words that re-enter the loop
+    loops = []
+    for _ in range(40 if ctx.tier == "quick" else 600):
+        x, y, z = (["lit", c] for c in rng.sample(["a", "b", "1", "c"], 3))
+        body = rng.choice([
+            ["opt", x], ["cat", ["star", x], ["star", y]], ["alt", ["star", x], y], ["alt", x, ["star", y]],
+            ["alt", ["opt", x], y], ["cat", ["star", ["cat", x, y]], ["star", z]], ["cat", ["opt", x], ["opt", y]],
+            ["alt", ["cat", ["opt", x], ["star", y]], z], ["star", ["alt", ["opt", x], y]], ["rep", x, 0, 2],
+            ["cat", ["opt", x], ["rep", ["alt", y, z], 0, 1]]])
+        p = [rng.choice(["star", "star", "plus"]), body]
+        r = rng.random()
+        if r < 0.3:
+            p = ["cat", p, z]
+        elif r < 0.5:
+            p = ["cat", x, p]
+        elif r < 0.6:
+            p = ["alt", p, ["cat", z, z]]
+        loops.append(p)
     import itertools
-    for p in fam[:(60 if ctx.tier == "quick" else len(fam))]:
+    for p in loops + fam[:(60 if ctx.tier == "quick" else len(fam))]:
         alpha = alphabet(p, rng)
         strings = [""] + ["".join(t) for l in (1, 2, 3, 4) for t in itertools.product(alpha[:4], repeat=l)]
         cases.append({"op": "match", "ast": p, "pattern": show(p), "strings": strings})
